@@ -470,11 +470,46 @@ fn instance_class(spec: &RuleSpec, vals: &[u32]) -> (String, String) {
     (if signs.is_empty() { "nosign".into() } else { signs.join(",") }, ders.join(","))
 }
 
-fn report_instance_failure(rep: &Report, spec: &RuleSpec, vals: &[u32], kind: &str, what: String, order: u64) {
-    let (signs, ders) = instance_class(spec, vals);
-    let sig = format!("C19|{kind}|{}|{signs}|{ders}", spec.name);
-    let asg: BTreeMap<String, u32> = spec.vars.iter().zip(vals).map(|((v, _), x)| (v.to_string(), *x)).collect();
-    rep.violation(Violation { sig, what, case: json!({"kind": "rule", "rule": spec.name, "assign": asg}), order });
+/// failing instances of one rule, per (kind, sign assignment): smallest instance and count
+type RuleFailures = BTreeMap<(String, String), (u64, Vec<u32>, String, u64)>;
+
+fn note_failure(f: &mut RuleFailures, spec: &RuleSpec, vals: &[u32], kind: &str, what: String, order: u64) {
+    let (signs, _) = instance_class(spec, vals);
+    let e = f.entry((kind.to_string(), signs)).or_insert((order, vals.to_vec(), what.clone(), 0));
+    e.3 += 1;
+    if order < e.0 {
+        *e = (order, vals.to_vec(), what, e.3);
+    }
+}
+
+/// One violation per (rule, kind) when every sign assignment fails, otherwise one per failing
+/// sign assignment; the reported instance is the smallest one in enumeration order (sum of widths,
+/// then lexicographic), the last signature field is its derived-width class.
+fn report_rule_failures(rep: &Report, spec: &RuleSpec, f: &RuleFailures) {
+    let n_signs = spec.vars.iter().filter(|(_, k)| *k == Kind::Sign).count();
+    let kinds: BTreeSet<String> = f.keys().map(|k| k.0.clone()).collect();
+    for kind in kinds {
+        let per: Vec<(&(String, String), &(u64, Vec<u32>, String, u64))> = f.iter().filter(|(k, _)| k.0 == kind).collect();
+        let emit = |signs: &str, item: &(u64, Vec<u32>, String, u64), n: u64| {
+            let (_, ders) = instance_class(spec, &item.1);
+            let sig = format!("C19|{kind}|{}|{signs}|{ders}", spec.name);
+            let asg: BTreeMap<String, u32> = spec.vars.iter().zip(item.1.iter()).map(|((v, _), x)| (v.to_string(), *x)).collect();
+            rep.violation(Violation {
+                sig,
+                what: format!("{} [{n} failing instance(s) in this class; smallest shown]", item.2),
+                case: json!({"kind": "rule", "rule": spec.name, "assign": asg}),
+                order: item.0,
+            });
+        };
+        if n_signs > 0 && per.len() == 1usize << n_signs {
+            let best = per.iter().min_by_key(|x| x.1.0).unwrap();
+            emit("any-sign", best.1, per.iter().map(|x| x.1.3).sum());
+        } else {
+            for (k, item) in per {
+                emit(&k.1, item, item.3);
+            }
+        }
+    }
 }
 
 fn run_rules(tier: Tier, rep: &Report, budget: &Budget) {
@@ -492,6 +527,7 @@ fn run_rules(tier: Tier, rep: &Report, budget: &Budget) {
         let inst = instances(&spec, &rg);
         let stop = AtomicBool::new(false);
         let name = spec.name.clone();
+        let failures: std::sync::Mutex<RuleFailures> = std::sync::Mutex::new(RuleFailures::new());
         inst.par_chunks(32).enumerate().for_each(|(ci, chunk)| {
             if stop.load(Ordering::Relaxed) {
                 return;
@@ -524,7 +560,7 @@ fn run_rules(tier: Tier, rep: &Report, budget: &Budget) {
                     }
                     Outcome::Fails { kind, what } => {
                         *c.entry(format!("failing:{name}")).or_default() += 1;
-                        report_instance_failure(rep, &spec, vals, &kind, what, order);
+                        note_failure(&mut failures.lock().unwrap(), &spec, vals, &kind, what, order);
                     }
                 }
                 if order % 9973 == 0 {
@@ -534,6 +570,7 @@ fn run_rules(tier: Tier, rep: &Report, budget: &Budget) {
             rep.merge_counts(&c);
             rep.distinct_hashes(&hs);
         });
+        report_rule_failures(rep, &spec, &failures.into_inner().unwrap());
         order_base += inst.len() as u64;
         let capped = stop.load(Ordering::Relaxed);
         if capped {
@@ -861,7 +898,9 @@ pub fn replay(case: &Value, rep: &Report) {
                 return;
             }
             if let Outcome::Fails { kind, what } = check_instance(r, &spec, &asg) {
-                report_instance_failure(rep, &spec, &vals, &kind, what, 0);
+                let mut f = RuleFailures::new();
+                note_failure(&mut f, &spec, &vals, &kind, what, 0);
+                report_rule_failures(rep, &spec, &f);
             }
         }
         _ => {
